@@ -9,8 +9,7 @@ def run(tier, seed, verdict):
     need = ["v1_future_value", "v2_future_value", "v1_future_done", "v2_future_done", "v2_future_error",
             "v1_future_dropped", "v2_future_dropped", "v2_future_cancelled_done", "tracked_results_constructed"]
     missing = [k for k in need if not st.get(k)]
-    if missing:
-        raise core.HarnessFailure("future stress observed none of: %s" % missing)
+    core.require_observed(verdict, missing, "future stress")
     cov = coverage(res, "C09",
                    "each evaluation is one scope lifetime (see C08) in which a third of the admissions are spawn_future / "
                    "scope.spawn: the future is awaited (optionally stop-requested before or shortly after start) or dropped, "
